@@ -12,7 +12,8 @@ REGISTRY = {
         "engine": "engine_deser",
         "theorems": [(A + "AcceptThm", "Api.C01_accept"), (A + "AcceptThm", "Api.accepts_iff_conforms"), (A + "AcceptThm", "Api.compile_noFail"),
                      (A + "UnionSelThm", "Api.C01_accept_union"), (A + "AcceptUnionThm", "Api.C01_acceptU"), (A + "AcceptUnionThm", "Api.acceptsU"),
-                     (A + "AcceptThm", "Api.compile_noFailU"), (A + "AcceptThm", "Api.acc_accU"), (A + "AcceptThm", "Api.isOk_finishObj"), (A + "AcceptThm", "Api.depMissing_isEmpty"), (A + "ImageThm", "Api.C01_image_partial")],
+                     (A + "AcceptThm", "Api.compile_noFailU"), (A + "AcceptThm", "Api.acc_accU"), (A + "AcceptThm", "Api.isOk_finishObj"), (A + "AcceptThm", "Api.depMissing_isEmpty"), (A + "ImageThm", "Api.C01_image_partial"),
+                     (A + "FieldLoopSrcThm", "Api.fieldLoop_matches_source"), (A + "FieldLoopSrcThm", "Api.fieldLoop_covered")],
         "partial": "C01_acceptU: acceptance <=> `conforms` on Ty.accU (unions of any shape at any depth, dependent_required included; sets, uniqueItems and field-level "
                    "fall_back_on_default outside) for data with distinct keys and no crash-prone leaf; C01_accept: the same on Ty.acc (a union is only Optional) "
                    "for every datum with distinct keys; C01_image_partial: typed image on the index-keyed fragment",
@@ -21,7 +22,8 @@ REGISTRY = {
     "C02": {
         "engine": "engine_deser",
         "theorems": [(A + "ErrorsThm", "Api.C02_errors_eq_partial"), (A + "ErrorsThm", "Api.errors_eq_violations"),
-                     (A + "ObjErrorsThm", "Api.C02_object_level"), (A + "TablesThm", "Api.Tables.C02_error_templates")],
+                     (A + "ObjErrorsThm", "Api.C02_object_level"), (A + "TablesThm", "Api.Tables.C02_error_templates"),
+                     (A + "FieldLoopSrcThm", "Api.fieldLoop_matches_source"), (A + "FieldLoopSrcThm", "Api.fieldLoop_dep"), (A + "FieldLoopSrcThm", "Api.fieldLoop_covered")],
         "partial": "list equation errors = violations on primitives / lists / tuples / NewTypes / annotations; per-object law (children = violating keys, including `missing property (required by [...])` of dependent_required, "
                    "both directions) for ObjectMethod; order of name-keyed children, mappings and Optional not yet proved",
         "assumptions": MODEL_ASSUMPTIONS,
@@ -71,7 +73,8 @@ REGISTRY = {
 
 REGISTRY["C16"] = {
     "engine": "engine_order",
-    "theorems": [(A + "OrderThm", "Api.sortByOrder_nodup"), (A + "OrderThm", "Api.sortByOrder_sub"), (A + "OrderThm", "Api.sortByOrder_perm"),
+    "theorems": [(A + "OrderSrcThm", "Api.classify_matches_source"), (A + "OrderSrcThm", "Api.walk_matches_source"), (A + "OrderSrcThm", "Api.order_definitions_pinned"),
+                 (A + "OrderSrcThm", "Api.bucket_after"), (A + "OrderSrcThm", "Api.bucket_before"), (A + "OrderThm", "Api.sortByOrder_nodup"), (A + "OrderThm", "Api.sortByOrder_sub"), (A + "OrderThm", "Api.sortByOrder_perm"),
                  (A + "OrderThm", "Api.C16_loses_counterexample")],
     "model_is_spec": True,
     "partial": "sortByOrder_perm (never loses a field) holds under `anchored`; finding KF17: dangling / cyclic after/before drop fields",
@@ -81,7 +84,8 @@ REGISTRY["C16"] = {
 
 REGISTRY["C15"] = {
     "engine": "engine_fieldsset",
-    "theorems": [(A + "FieldsSet", "Api.C15_deserialize"), (A + "FieldsSet", "Api.C15_setattr"), (A + "FieldsSet", "Api.C15_unset"),
+    "theorems": [(A + "FieldsSetSrcThm", "Api.afterInit_matches_source"), (A + "FieldsSetSrcThm", "Api.afterInit_matches_source_fresh"), (A + "FieldsSetSrcThm", "Api.fs_definitions_pinned"), (A + "FieldsSetSrcThm", "Api.fs_atoms_known"),
+                 (A + "FieldsSet", "Api.C15_deserialize"), (A + "FieldsSet", "Api.C15_setattr"), (A + "FieldsSet", "Api.C15_unset"),
                  (A + "FieldsSet", "Api.C15_set"), (A + "FieldsSet", "Api.C15_replace")],
     "model_is_spec": True,
     "partial": "classes directly decorated with with_fields_set (inheritance to / from undecorated classes is not modelled); "
@@ -111,7 +115,7 @@ REGISTRY["C06"] = {
 }
 REGISTRY["C07"] = {
     "engine": "engine_schema",
-    "theorems": [(A + "SerSchema", "Api.C07_serialized_validates"), (A + "SerSchema", "Api.C04_keys"),
+    "theorems": [(A + "SerSchema", "Api.C07_serialized_validates"), (A + "SerSchema", "Api.C04_keys"), (A + "OmitSrcThm", "Api.skippable_matches_source"), (A + "OmitSrcThm", "Api.omit_matches_source"),
                  (A + "SerSchema", "Api.C07_options_mismatch_counterexample")],
     "partial": "proved for primitives, lists, tuples, NewTypes and dataclasses nested to any depth under every exclude_none / exclude_defaults / "
                "additional_properties record; serialized methods, mappings, unions, enums, TypedDicts and Any are decided by the engine only",
@@ -120,7 +124,7 @@ REGISTRY["C07"] = {
 }
 REGISTRY["C18"] = {
     "engine": "engine_schema",
-    "theorems": [(A + "VersionsThm", "Api.C18_to07_preserves"), (A + "VersionsThm", "Api.C18_buildD"),
+    "theorems": [(A + "VersionsSrcThm", "Api.to2019_keys_match"), (A + "VersionsSrcThm", "Api.to7_vocabulary"), (A + "VersionsSrcThm", "Api.versions_pinned"), (A + "VersionsThm", "Api.C18_to07_preserves"), (A + "VersionsThm", "Api.C18_buildD"),
                  (A + "VersionsThm", "Api.C18_vocabulary"), (A + "VersionsThm", "Api.C18_vocabulary_counterexample"),
                  (A + "TablesThm", "Api.Tables.C18_vocabulary_generated"), (A + "TablesThm", "Api.Tables.C18_version_table")],
     "partial": "instance preservation proved for the 2019-09 / draft-07 rewrite of the array keywords at every depth; `definitions` / `dependencies` "
@@ -143,8 +147,11 @@ REGISTRY["C17"] = {
 REGISTRY["C04"] = {
     "engine": "engine_ser",
     "theorems": [(A + "SerSchema", "Api.C04_keys"), (A + "SerSchema", "Api.omitted_skippable"), (A + "SerSchema", "Api.serFields_props"),
-                 (A + "SerJsonThm", "Api.C04_json_only"), (A + "SerJsonThm", "Api.ser_pure"), (A + "SerJsonThm", "Api.C04_nonstring_keys_counterexample")],
-    "partial": "on well-typed values of the fragment (primitives, lists, tuples, NewTypes, dataclasses at any depth) serialize returns and its result is JSON-only "
+                 (A + "SerJsonThm", "Api.C04_json_only"), (A + "SerJsonThm", "Api.ser_pure"), (A + "SerJsonThm", "Api.C04_nonstring_keys_counterexample"),
+                 (A + "OmitSrcThm", "Api.omit_matches_source"), (A + "OmitSrcThm", "Api.serFieldStep_matches_source"), (A + "OmitSrcThm", "Api.simple_field_matches_source"),
+                 (A + "OmitSrcThm", "Api.omit_atoms_covered"), (A + "OmitSrcThm", "Api.other_strategies_always_write")],
+    "partial": "the omission conditions of ComplexField.update_result, the flags SerializationMethodVisitor.object passes and ObjectField.skippable are regenerated from the source as Boolean "
+               "terms on every run and proved equal to the model's omission rule (omit_matches_source, serFieldStep_matches_source, simple_field_matches_source); on well-typed values of the fragment (primitives, lists, tuples, NewTypes, dataclasses at any depth) serialize returns and its result is JSON-only "
                "(C04_json_only); emitted keys = aliases of the non-omitted fields in field order, and the omission rule against the 2^4 flag combinations, are proved; "
                "the full image (conversions, serialized methods, flattened fields, fall_back_on_any, check_type) is decided by the correspondence with the "
                "semantic model of serialization and by the checks on the real code",
